@@ -10,10 +10,16 @@ def run(ctx):
         raise core.Machinery("export count %d does not match decoded states (%d distinct)" % (len(r.exported), r.distinct))
     inp = ctx.write_ndjson("fileasm.ndjson", r.exported)
     core.absorb(ctx, ctx.harness(["c12-replay", "-in", inp]))
+    # the shipped tool that writes the index: examples/add-sidx, built from the working tree, on every layout it can express
+    tool = ctx.build_repo_binary("./examples/add-sidx", "add-sidx")
+    st = core.absorb(ctx, ctx.harness(["c12-tool", "-in", inp, "-bin", tool, "-stride", "1" if len(r.exported) < 6000 else "3"], timeout=3000))
+    if st["extra"]["tool_runs"] < 200 or st["extra"]["tool_failed"] * 4 > st["extra"]["tool_runs"]:
+        raise core.Machinery("add-sidx runs: %d, failed: %d" % (st["extra"]["tool_runs"], st["extra"]["tool_failed"]))
     ctx.cov["bounds"] = {"segments": "1..%d" % (3 if q else 4), "fragments_per_segment": "1..%d" % (2 if q else 3), "tracks": "1..2",
                          "delimiters": ["none", "styp", "sidx", "styp+sidx", "mfra(+ISM flag)", "mfra without flag", "start-on-moof"],
                          "emsg": ["none", "segment start", "second fragment"] + ([] if q else ["all"]),
-                         "segment_level_sidx": "0..%d" % (1 if q else 2), "UpdateSidx": "existing/absent sidx x nonZeroEPT {false,true}"}
+                         "segment_level_sidx": "0..%d" % (1 if q else 2), "UpdateSidx": "existing/absent sidx x nonZeroEPT {false,true}",
+                         "add-sidx tool": "%d runs of the built binary: [-startSegOnMoof] x [-nzEPT] x {clean trafs, trafs with left-over saiz/saio/senc and -removeEnc}" % st["extra"]["tool_runs"]}
     ctx.cov["rule"] = ("one behaviour per consistent fragmented file layout enumerated by FileAsm.tla; materialised with real sizes, decoded "
                        "(reader and SR), partition / re-encoding / index compared; non-trivial = decoded by the real decoder")
     ctx.cov["traces_validated_against_impl"] = 0
